@@ -19,6 +19,7 @@ from . import common as C
 
 ASSUMES = ["C15 / C16: the arena is a tree (each slot linked once)", "pt/models.py std model"]
 LEVEL_TEXT = __doc__
+DEEPER = False     # thorough tier: more configurations and the mutant corpus, same unrolling (path count grows too fast)
 
 # next(): projection of the popped node n in table {T}
 WALKERS = {
